@@ -152,3 +152,22 @@ sens("R4-init-no-lift", "R4", "R4/init", (SCEN, "        sim.next_steps = [Tiere
 spec("R4s-le-earlier", "R4", (SIMM, "        is_earlier = not self.next_steps or tiered_time < self.next_steps[0]", "        is_earlier = len(self.next_steps) == 0 or tiered_time <= self.next_steps[0]"), note="<= is the same as < after dedup")
 spec("R4s-settle-flip", "R4", (SCHED, "        if sim.next_steps and sim.next_steps[0] == sim.progress.time:", "        if sim.next_steps and sim.progress.time == sim.next_steps[0]:"))
 spec("R4s-notify-index", "R4", (SCHED, "        if attr in sim.data.get(eid, {}):", "        if eid in sim.data and attr in sim.data[eid]:"))
+
+# ----------------------------------------------------------------------------- R5
+_MINSTORE = "        dest_sim.input_delays[src_sim] = min(dest_sim.input_delays.get(src_sim, delay), delay)\n"
+sens("R5-revert-D4", "R5", "R5/store", (SCEN, "                    delay = update_min(dest_sim.triggering_ancestors.get(sim), delay)\n                    if delay is not None:\n                        dest_sim.triggering_ancestors[sim] = delay\n", "                    dest_sim.triggering_ancestors[sim] = delay\n"))
+sens("R5-plain-store", "R5", "R5/store", (SCEN, _MINSTORE, "        dest_sim.input_delays[src_sim] = delay\n"))
+sens("R5-setdefault", "R5", "R5/store", (SCEN, _MINSTORE, "        dest_sim.input_delays.setdefault(src_sim, delay)\n"))
+sens("R5-max", "R5", "R5/store", (SCEN, _MINSTORE, "        dest_sim.input_delays[src_sim] = max(dest_sim.input_delays.get(src_sim, delay), delay)\n"))
+sens("R5-explicit-reversed", "R5", "R5/store", (SCEN, _MINSTORE, "        known_delay = dest_sim.input_delays.get(src_sim)\n        if known_delay is None or known_delay < delay:\n            dest_sim.input_delays[src_sim] = delay\n"))
+sens("R5-update-min-or", "R5", "R5/store", (SCEN, _MINSTORE, "        dest_sim.input_delays[src_sim] = update_min(dest_sim.input_delays.get(src_sim), delay) or delay\n"))
+sens("R5-update-min-lt", "R5", "R5/update_min", (SCEN, "    if a <= b:  # type: ignore\n        return None", "    if a < b:  # type: ignore\n        return None"))
+sens("R5-update-min-ge", "R5", "R5/update_min", (SCEN, "    if a <= b:  # type: ignore\n        return None", "    if a >= b:  # type: ignore\n        return None"))
+sens("R5-closure-unguarded", "R5", "R5/store", (SCEN, "                        if src_to_dest is not None:\n                            dirty.add(dest_sim)\n                            dest_sim.triggering_ancestors[src_sim] = src_to_dest", "                        if True:\n                            dirty.add(dest_sim)\n                            dest_sim.triggering_ancestors[src_sim] = src_to_mid + mid_to_dest"))
+spec("R5s-explicit", "R5", (SCEN, _MINSTORE, "        known_delay = dest_sim.input_delays.get(src_sim)\n        if known_delay is None or delay < known_delay:\n            dest_sim.input_delays[src_sim] = delay\n"))
+spec("R5s-explicit-in", "R5", (SCEN, _MINSTORE, "        if src_sim not in dest_sim.input_delays or delay < dest_sim.input_delays[src_sim]:\n            dest_sim.input_delays[src_sim] = delay\n"))
+spec("R5s-min-swapped", "R5", (SCEN, _MINSTORE, "        dest_sim.input_delays[src_sim] = min(delay, dest_sim.input_delays.get(src_sim, delay))\n"))
+spec("R5s-update-min-flip", "R5", (SCEN, "    if a <= b:  # type: ignore\n        return None", "    if not (b < a):  # type: ignore\n        return None"))
+sens("R2-is-in-step", "R2", "R2/anc", (SCHED, "    if sim.current_step is not None:\n        return sim.current_step\n    if sim.next_steps:", "    if sim.is_in_step:\n        return sim.current_step\n    if sim.next_steps:"))
+# (a variant `if sim.is_in_step or sim.current_step is not None` is correct only through the invariant is_in_step => current_step set;
+# conditions unrelated to holder/heap are free atoms for R2, so it would be reported: accepted limitation, not in the corpus)
